@@ -28,6 +28,10 @@ type hs = { kind : string; level : int; fmt : int }
 let hkind_of = function
   | "cap" -> HCap | "console" -> HConsole true | "conplain" -> HConsole false | _ -> HFile
 
+(* static handler levels: the early-out of the log functions is the threshold min_level
+   (Properties_C16.handler_level_prefilter_static); no handler: nothing passes *)
+let static_threshold hl = match min_level hl with Some m -> m | None -> z_of_string "4611686018427387904"
+
 let rec upto n = if n <= 0 then [] else upto (n - 1) @ [n - 1]
 
 (* ------------------------------------------------------------------ *)
@@ -90,6 +94,8 @@ let handle (lines : string list) : unit =
     | ["setlevel"; i; lv] -> ops := !ops @ [`Set (int_of_string i, int_of_string lv)]
     | ["failmalloc"; k] -> ops := !ops @ [`Fail (int_of_string k)]
     | "log" :: lv :: _ -> ops := !ops @ [`Log (int_of_string lv)]
+    | "hold" :: lv :: _ -> ops := !ops @ [`Hold (int_of_string lv)]
+    | "release" :: _ -> ops := !ops @ [`Release]
     | ["threads"; n; m; p] -> thn := int_of_string n; thm := int_of_string m; thp := int_of_string p
     | "lossy" :: _ -> lossy := true
     | ["tick"; d] -> tick := int_of_string d
@@ -146,12 +152,36 @@ let handle (lines : string list) : unit =
         if h.kind = "cap" && !mode = "seq" then
           Printf.printf "rets %d%s\n" i (String.concat "" (List.map (fun r -> " " ^ string_of_int r) rets.(i)))
       end) hss in
+  let has_hold = List.exists (fun o -> match o with `Hold _ | `Release -> true | _ -> false) !ops in
+  if !mode = "seq" && !is_async && has_hold then begin
+    (* queue view of the async logger: the writer thread is stopped (hold) and released by the harness *)
+    let format k (m : lmsg) =
+      let (_, fs, fc, fr) = try Hashtbl.find oracle (int_of_nat m.m_id) with Not_found -> ([], [], [], []) in
+      nlist (match int_of_nat k with 0 -> fs | 1 -> fc | _ -> fr) in
+    let st = ref { aq_lg = !lg; aq_held = None; aq_pending = [] } in
+    let idx = ref 0 in
+    let step o = let (s', ems) = aseq_step format lv code_limit !fixed !st o in st := s'; emit_all ems in
+    let log hold level =
+      let (text, _, _, _) = try Hashtbl.find oracle !idx with Not_found -> ([], [], [], []) in
+      step (AOLog (hold, z_of_int level, nat_of_int !idx, nlist text)); incr idx in
+    List.iter (fun o -> match o with
+      | `Set (i, l) -> if i >= 0 && i < nh && pos_of.(i) >= 0 then step (AOSet (nat_of_int pos_of.(i), z_of_int l))
+      | `Fail _ -> ()
+      | `Log level -> log false level
+      | `Hold level -> log true level
+      | `Release -> step AORelease) !ops;
+    step AORelease;
+    print_endline "F destroyed=1 live=0";
+    dump ()
+  end else
   if !mode = "seq" then begin
     let idx = ref 0 and fail = ref 0 in
     List.iter (fun o -> if not !crashed then match o with
+      | `Release -> ()
+      | `Hold level when false -> ignore level
       | `Set (i, l) -> if i >= 0 && i < nh && pos_of.(i) >= 0 then lg := set_level !lg (nat_of_int pos_of.(i)) (z_of_int l)
       | `Fail k -> fail := k
-      | `Log level ->
+      | `Log level | `Hold level ->
         let (text, fs, fc, fr) = try Hashtbl.find oracle !idx with Not_found -> ([], [], [], []) in
         let format k (_m : lmsg) = nlist (match int_of_nat k with 0 -> fs | 1 -> fc | _ -> fr) in
         if !is_async then begin
@@ -262,7 +292,7 @@ let handle (lines : string list) : unit =
         end else Printf.printf "file %d 0:\n" i) hss in
     if !is_async then begin
       let a = { as_n = nat_of_int !thn; as_msgs = nat_of_int !thm; as_level = level_of;
-                as_handlers = hl; as_lowest = (!lg).lg_lowest; as_usable = usable_of (nat_of_int !capacity) } in
+                as_handlers = hl; as_lowest = static_threshold hl; as_usable = usable_of (nat_of_int !capacity) } in
       let (st, ok) = run (astep !fixed a) (ainit a) (!thn + 1) in
       if ok then begin
         Printf.printf "F destroyed=%d live=%d\n" (if st.a_destroyed then 1 else 0) (int_of_nat st.a_live);
@@ -270,7 +300,7 @@ let handle (lines : string list) : unit =
       end
     end else begin
       let sc = { sc_n = nat_of_int !thn; sc_msgs = nat_of_int !thm; sc_level = level_of;
-                 sc_handlers = hl; sc_lowest = (!lg).lg_lowest } in
+                 sc_handlers = hl; sc_lowest = static_threshold hl } in
       let (st, ok) = run (sstep sc) sinit !thn in
       if ok then begin
         let finished = List.for_all (fun t -> (st.s_thr (nat_of_int t)).s_pc = SDone) (upto !thn) in
